@@ -553,14 +553,14 @@ fn main() {
     };
     let mut r = Sm::new(a.seed);
     // 1. every template
-    let reps = if a.thorough { 6 } else { 3 };
+    let reps = if a.thorough { 20 } else { 5 };
     let all_variants = true;
     let mut k = 0u64;
     for name in TEMPLATES {
         for rep in 0..reps {
             let variants: Vec<u32> = if a.thorough || all_variants { (0..N_VARIANTS).collect() } else { vec![((a.seed + k) % N_VARIANTS as u64) as u32] };
             for v in variants {
-                let iters = r.range(1, if a.thorough { 10 } else { 6 });
+                let iters = r.range(1, if a.thorough { 15 } else { 6 });
                 let fresh = if k % 4 == 0 { " fresh" } else { "" };
                 emit(format!("(run {name} {v} {} {iters} {}{fresh})", r.below(N_INSTANCES as u64), r.below(1 << 20)));
                 k += 1;
@@ -569,7 +569,7 @@ fn main() {
         }
     }
     // 2. generated configurations
-    for _ in 0..(if a.thorough { 200 } else { 30 }) {
+    for _ in 0..(if a.thorough { 600 } else { 40 }) {
         emit(format!("(gen {} {} {} {} {} {} {} {})", r.range(2, 8), r.range(1, 5), r.below(4), r.below(3), r.below(3), r.below(3), r.below(N_INSTANCES as u64), r.below(1 << 20)));
     }
     // 3. user-supplied generator
